@@ -7,7 +7,7 @@
    The pole table is given COLUMN-MAJOR: [tbl] is the list of the columns of Fn_poles (nth o tbl = Fn_poles[:, o]);
    NumPy nan = None.  Values are only moved, never computed, so entries are compared with Leibniz equality on the
    (reduced) fractions the harness writes. *)
-From Coq Require Import List Arith ZArith QArith Qabs Bool String.
+From Coq Require Import List Arith ZArith QArith Qabs Bool String Permutation.
 From PyOMA.Base Require Import Argmin Show.
 Import ListNotations.
 Open Scope Q_scope.
@@ -68,8 +68,9 @@ Definition pick_fdd (freq:list Q) (x y:Q) : pres :=
 Record state := mkst { shift : bool; sel : list entry }.
 Definition init_state : state := mkst false [].
 Inductive button := BLeft | BMiddle | BRight | BOther.      (* Matplotlib buttons 1, 2, 3, anything else *)
-Inductive action := KeyDown | KeyUp | KeyOther | Click (b:button) (x y:Q).
-  (* KeyDown / KeyUp = press / release of "shift"; KeyOther = press or release of any other key *)
+Inductive action := KeyDown | KeyUp | KeyOther | Click (b:button) (x y:Q) | ClickOut (b:button).
+  (* KeyDown / KeyUp = press / release of "shift"; KeyOther = press or release of any other key;
+     ClickOut = a click outside the axes (Matplotlib reports xdata = ydata = None): it designates nothing *)
 
 (* ---------------------------------------------------------------- multisets of entries ------------------------ *)
 Fixpoint remove1 (e:entry) (l:list entry) : option (list entry) :=
@@ -118,7 +119,81 @@ Definition allowed (pick:Q->Q->pres) (st:state) (a:action) (st':state) : bool :=
          | BOther => msame (sel st) (sel st')
          end
        else msame (sel st) (sel st'))
+  | ClickOut _ => Bool.eqb (shift st') (shift st) && msame (sel st) (sel st')
   end.
+
+(* ---------------------------------------------------------------- traces of allowed steps ---------------------- *)
+(* [steps pick st acts st'] : st' is reachable from st by the actions acts, every step being allowed.  Any
+   implementation whose recorded transitions pass the checker yields such a trace. *)
+Inductive steps (pick:Q->Q->pres) : state -> list action -> state -> Prop :=
+| steps_nil : forall st, steps pick st [] st
+| steps_cons : forall st a st1 l st2, allowed pick st a st1 = true -> steps pick st1 l st2 -> steps pick st (a :: l) st2.
+
+(* what a history means, as a function of the actions alone (sh = modifier state before the first action):
+   the modifier afterwards, the clicks that pick (left button, modifier held), the number of deselecting clicks *)
+Fixpoint shift_after (sh:bool) (l:list action) : bool :=
+  match l with
+  | [] => sh
+  | KeyDown :: r => shift_after true r
+  | KeyUp :: r => shift_after false r
+  | _ :: r => shift_after sh r
+  end.
+Fixpoint eff_clicks (sh:bool) (l:list action) : list (Q * Q) :=
+  match l with
+  | [] => []
+  | KeyDown :: r => eff_clicks true r
+  | KeyUp :: r => eff_clicks false r
+  | Click BLeft x y :: r => if sh then (x, y) :: eff_clicks sh r else eff_clicks sh r
+  | _ :: r => eff_clicks sh r
+  end.
+Fixpoint ndesel (sh:bool) (l:list action) : nat :=
+  match l with
+  | [] => 0
+  | KeyDown :: r => ndesel true r
+  | KeyUp :: r => ndesel false r
+  | Click BRight _ _ :: r | Click BMiddle _ _ :: r => if sh then S (ndesel sh r) else ndesel sh r
+  | _ :: r => ndesel sh r
+  end.
+(* the pair a click designates (none if the handler raises) *)
+Definition designated (pick:Q->Q->pres) (c:Q*Q) : list entry :=
+  match pick (fst c) (snd c) with Picked e => [e] | PickRaises => [] end.
+Definition picks_made (pick:Q->Q->pres) (acts:list action) : list entry :=
+  flat_map (designated pick) (eff_clicks false acts).
+
+(* the specification as a relation on multisets (Permutation); [allowed] decides it: P_pick.allowed_iff *)
+Definition allowedP (pick:Q->Q->pres) (st:state) (a:action) (st':state) : Prop :=
+  match a with
+  | KeyDown => shift st' = true /\ Permutation (sel st) (sel st')
+  | KeyUp => shift st' = false /\ Permutation (sel st) (sel st')
+  | KeyOther | ClickOut _ => shift st' = shift st /\ Permutation (sel st) (sel st')
+  | Click b x y =>
+      shift st' = shift st /\
+      if shift st then
+        match b with
+        | BLeft => Permutation (designated pick (x, y) ++ sel st) (sel st')
+        | BRight => (sel st = [] /\ sel st' = []) \/
+                    exists e, In e (sel st) /\ Permutation (sel st) (e :: sel st')
+        | BMiddle => (sel st = [] /\ sel st' = []) \/
+                     exists e, In e (sel st) /\
+                               (forall e2, In e2 (sel st) -> absdist x (fst e) <= absdist x (fst e2)) /\
+                               Permutation (sel st) (e :: sel st')
+        | BOther => Permutation (sel st) (sel st')
+        end
+      else Permutation (sel st) (sel st')
+  end.
+
+(* declarative meaning of "the click (x,y) designates the pole f at order o":
+   o is the first column index nearest to y; f is the value of the first retained cell of that column nearest to x *)
+Definition retained_cell (tbl:table) (f:Q) (o:nat) : Prop :=
+  exists col r, nth_error tbl o = Some col /\ nth_error col r = Some (Some f).
+Definition designates_ssi (tbl:table) (x y:Q) (f:Q) (o:nat) : Prop :=
+  exists col r d d',
+    is_first_argmin (col_dists (List.length tbl) y) o d' /\
+    nth_error tbl o = Some col /\
+    is_first_argmin (row_dists x col) r d /\
+    nth_error col r = Some (Some f).
+Definition designates_fdd (freq:list Q) (x:Q) (f:Q) (k:nat) : Prop :=
+  exists d, is_first_argmin (map (fun g => Some (absdist x g)) freq) k d /\ nth_error freq k = Some f.
 
 (* ---------------------------------------------------------------- the present code's resolution --------------- *)
 (* sort_selected_poles: np.argsort(sel_freq, kind="stable") applied to BOTH lists = stable sort of the pairs by
@@ -160,6 +235,7 @@ Definition impl_step (pick:Q->Q->pres) (st:state) (a:action) : state :=
         | BOther => st
         end
       else st
+  | ClickOut _ => st
   end.
 Definition impl_raises (pick:Q->Q->pres) (st:state) (a:action) : bool :=
   match a with
